@@ -12,5 +12,6 @@ def _lazy(mod, fn):
 CHECKS = {
     "C04": _lazy("graph", "run_c04"),
     "C05": _lazy("graph", "run_c05"),
+    "C13": _lazy("frag", "run_c13"),
     "C20": _lazy("graph", "run_c20"),
 }
